@@ -185,7 +185,8 @@ def run(ctx):
         traces.append(tr)
         infos.append(info)
     # the library's own DataLoader as the source of batches, fresh and after the caller has partially consumed it
-    for lk, E, NB, NV in (("dataloader", 2, 2, 1), ("dataloader_peeked", 2, 3, 1), ("dataloader_peeked", 3, 2, 0), ("dataloader_peeked", 1, 3, 2)):
+    for lk, E, NB, NV in (("dataloader", 2, 2, 1), ("dataloader_peeked", 2, 3, 1), ("dataloader_peeked", 3, 2, 0), ("dataloader_peeked", 1, 3, 2),
+                          ("list_uneven", 2, 3, 2), ("list_uneven", 1, 2, 0)):
         seed += 1
         try:
             tr, info = TR.run_trainer(sg, E, NB, NV, 1 + (seed % 2), False, False, seed, loader_kind=lk)
